@@ -35,7 +35,7 @@ func init() {
 		Run: run,
 		Floors: func(t string) map[string]int64 {
 			return map[string]int64{"api.struct": 100, "api.fields": 100, "kind.Point": 8, "kind.MultiPoint": 8, "kind.LineString": 8, "kind.MultiLineString": 8, "kind.Polygon": 8, "kind.*Bounds": 8,
-				"records.compared": 3000, "string.last_column": 50, "string.with_edge_blanks": 200, "ring.unclosed": 200, "ring.unclosed_by_a_hair": 100, "file.empty": 3, "column.string": 100, "column.int": 100, "column.float": 100, "string.at_field_width": 20, "schema.crossed_tags_and_names": 20, "decode.alternating_record_types": 30, "file.more_than_1000_records": 1}
+				"records.compared": 3000, "string.last_column": 50, "string.with_edge_blanks": 200, "ring.unclosed": 200, "ring.unclosed_by_a_hair": 100, "file.empty": 3, "column.string": 100, "column.int": 100, "column.float": 100, "string.at_field_width": 20, "schema.crossed_tags_and_names": 20, "decode.alternating_record_types": 30, "box.degenerate": 50, "file.more_than_1000_records": 1}
 		},
 	})
 }
@@ -120,8 +120,17 @@ func genGeom(c *core.Ctx, r *gen.R, kind string) geom.Geom {
 		return m
 	case "*Bounds":
 		a, b := pts(r, 1)[0], pts(r, 1)[0]
-		for a.X == b.X || a.Y == b.Y { // a rectangle, not a degenerate box
-			b = pts(r, 1)[0]
+		if r.Chance(0.15) {
+			// a box of zero width, zero height, or both: still written as a five-vertex rectangle
+			switch r.Intn(3) {
+			case 0:
+				b.X = a.X
+			case 1:
+				b.Y = a.Y
+			default:
+				b = a
+			}
+			c.Count("box.degenerate")
 		}
 		return &geom.Bounds{Min: geom.Point{X: math.Min(a.X, b.X), Y: math.Min(a.Y, b.Y)}, Max: geom.Point{X: math.Max(a.X, b.X), Y: math.Max(a.Y, b.Y)}}
 	}
